@@ -647,15 +647,15 @@ def classify_e2e(ctx, path, orig_t, fin_t, diffs, failed=None):
     failed: None (all diffs applied but the result differs from disk) or (step index, text before that step)."""
     name = os.path.basename(path)
     nl = ref.norm_nl
-    lf_orig = orig_t.replace("\r\n", "\n")
-    # text-mode manifest writers: read with universal newlines, written with "\n"
+    # text-mode manifest writers: read with universal newlines, written with "\n".  Prediction: the reported diffs fold to
+    # the disk content when a diff that does not apply as it is may apply to the "\r\n" -> "\n" normalised text (the
+    # writer's own diff), the pipelines' diffs on the same file (setup.py is also a source file) applying unchanged
+    # before it and to the normalised text after it; the disk has no "\r" left.
     if name in MANIFEST_NAMES and "\r" in orig_t and "\r" not in fin_t:
-        r = ref.fold(diffs, lf_orig)
-        if r is not None and nl(r) == nl(fin_t):
+        aps = (ref.apply_udiff, ref.apply_udiff_split_world) if name == "pyproject.toml" else (ref.apply_udiff,)
+        r, normalised = ref.fold_lazy_lf(diffs, orig_t, aps)
+        if r is not None and nl(r.replace("\r\n", "\n")) == nl(fin_t) and (normalised or "\r" in r):
             return "kf_manifest_crlf"
-        r = ref.fold(diffs, lf_orig, ref.apply_udiff_split_world) if name == "pyproject.toml" else None
-        if r is not None and nl(r) == nl(fin_t):
-            return "kf_manifest_crlf"       # together with kf_pyproject_phantom_line
     # PyprojectWriter diffs text.split("\n"): the empty string after the final newline is a diff line of its own (a bare
     # prefix character ends the diff); in that world the diffs fold to the disk content
     if name == "pyproject.toml" and any(d.split("\n")[-1] in (" ", "+", "-") for d in diffs):
